@@ -249,6 +249,32 @@ ALNUM = "123456789ABCDEFGHJKLMNPQRSTUVWXYZabcdefghijkmnopqrstuvwxyz0OIl"
 WEIRD = ["", " ", "\x00", "\n", "é", "😀", "ǅ", "ß", "K", "İ", "²", "１", "퟿", "a" * 300, "1" * 500, "/", "//", "'", ":", "=", "-1", "0x", "m/", " "]
 
 
+def leading_byte_surgery(s):
+    """structure-aware: if the text is plain Base58 (SS58 addresses, Solana keys, Monero-free formats …), the decoded bytes with the first
+    one or two bytes replaced by every value class of a length/format prefix (each nibble boundary of the first byte, the second byte in
+    steps of 0x10 and at 0x3f/0x40/0xc0/0xff), re-encoded; for SS58-shaped payloads (35/36 bytes) the blake2b checksum is recomputed too, so
+    the input reaches the code behind the checksum check as well as the code in front of it"""
+    import hashlib
+    out = []
+    try:
+        raw = Base58Decoder.Decode(s)
+    except Exception:  # noqa
+        return out
+    if not 20 <= len(raw) <= 80:
+        return out
+    firsts = [0x00, 0x2a, 0x3f, 0x40, 0x41, 0x4f, 0x50, 0x7f, 0x80, 0xc0, 0xff]
+    seconds = list(range(0, 256, 16)) + [0x3f, 0x41, 0x7f, 0xc1, 0xff]
+    for b0 in firsts:
+        out.append(Base58Encoder.Encode(bytes([b0]) + raw[1:]))
+        for b1 in (seconds if 0x40 <= b0 < 0x80 else seconds[:3]):
+            body = bytes([b0, b1]) + raw[2:]
+            out.append(Base58Encoder.Encode(body))
+            if len(raw) in (35, 36):
+                for data in (bytes([b0, b1]) + raw[-34:-2], bytes([b0, b1]) + raw[-34:-2] + b"\x00"):
+                    out.append(Base58Encoder.Encode(data + hashlib.blake2b(b"SS58PRE" + data, digest_size=64).digest()[:2]))
+    return out
+
+
 def reencoded_truncations(s):
     """structure-aware: if the text is a Base58Check or Bech32 string, its payload cut at EVERY length (and extended), re-encoded
     with a valid checksum — damage that survives the text layer and reaches the field-splitting code"""
@@ -420,6 +446,7 @@ def str_inputs(rng, seeds, n):
     must = list(WEIRD) + list(seeds) + list(PUMPED_FIXED) + list(BOUNDARY_PHRASES)
     for s in seeds:
         must += reencoded_truncations(s)
+        must += leading_byte_surgery(s)
         must += symbol_level_respellings(s)
         must += case_expanding_variants(s)
         must += pumped_variants(s)
